@@ -26,6 +26,8 @@ CLAIMS["C08"] = ("partial: the socket state machine is extracted from the IR (on
     "FSM extraction by abstract evaluation per state, interprocedural effect summaries, graph reachability and cycle analysis")
 CLAIMS["C17"] = ("strong: the interval decision table is evaluated exactly on the IR (callees in place) for 3 types x 4 modes x 11 representative values that are exhaustive because the value is only compared with the range constants and copied; range constants against RFC 8210; End-of-Data arm guards (version 1, mode != IGNORE_ANY) and field/type pairing by RFC offsets; who-writes for the three fields; rtr_init table over 125 cells; wait expression and outcome table of rtr_wait_for_sync and the polling arm",
     "interprocedural decision-table abstract evaluation (exact finite partition), dominating guards, value-flow shape of the wait expression")
+CLAIMS["C14"] = ("partial, strong: single copy-convert-send exit, length field == bytes sent, complete byte-level assembly of the error report (every byte of the message accounted for), encapsulated length class at all 20 report sites and total size bound, byte-order typestate of the echoed buffer on every path of the receive function, report forwarded for every length class, every protocol-violation FATAL preceded by a report, no reply to Error Reports, padding-free layouts, per-type conversion table against the RFC layout, and the RFC error code per violation class; partial-write behaviour of user transports is not decided",
+    "value-flow of stores into the message buffer, typestate dataflow, decision cells per violation class, layout tables from DWARF vs RFC tables")
 NA = {}
 def main():
     props = [json.loads(l) for l in open(os.path.join(HERE, "properties.jsonl"))]
